@@ -222,8 +222,10 @@ impl<'tcx> Ex<'tcx> {
             Some(e) => format!("{}", self.tr.expr_ty(e)),
             None => "()".to_string(),
         };
+        let is_unsafe = !matches!(b.rules, hir::BlockCheckMode::DefaultBlock);
         obj(vec![
             ("k", js("Block")),
+            ("unsafe", is_unsafe.to_string()),
             ("stmts", arr(stmts)),
             ("expr", opt(b.expr.map(|e| self.expr(e)))),
             ("ty", js(&tail_ty)),
@@ -522,6 +524,14 @@ impl<'tcx> Ex<'tcx> {
                 self.unsupported += 1;
                 f.push(("k", js("Unsupported")));
                 f.push(("dbg", js(&format!("{:?}", std::mem::discriminant(&e.kind)))));
+            }
+        }
+        // auto-borrowed mutably (method receivers, overloaded index/assign operands)?
+        for adj in self.tr.expr_adjustments(e) {
+            let d = format!("{:?}", adj.kind);
+            if d.starts_with("Borrow(") && d.contains("Mut") {
+                f.push(("mutborrow", "true".to_string()));
+                break;
             }
         }
         f.push(("ty", self.ty_of(e)));
